@@ -377,9 +377,12 @@ def ifexp_to_statement(tree):
     """t = A if c else B   ->   if c: t = A  else: t = B      (t a plain name or an attribute / constant-subscript chain of names, so
     that evaluating the target after the test instead of after the value changes nothing);  `t = x or d` with x a reference is first
     read as `t = x if x else d`. The arms then take part in the structural normal forms like any other two-armed if."""
+    import copy
+
     def simple_target(t):
         return _reference_expr(t) and not isinstance(t, ast.Constant)
-    for node, fld, blk in list(_blocks(tree)):
+
+    def do(blk):
         i = 0
         while i < len(blk):
             st = blk[i]
@@ -387,17 +390,18 @@ def ifexp_to_statement(tree):
                 v = st.value
                 if isinstance(v, ast.BoolOp) and isinstance(v.op, ast.Or) and len(v.values) == 2 and _reference_expr(v.values[0]) and \
                         not isinstance(v.values[0], ast.Constant):
-                    import copy
                     v = ast.copy_location(ast.IfExp(test=v.values[0], body=copy.deepcopy(v.values[0]), orelse=v.values[1]), v)
                 if isinstance(v, ast.IfExp):
-                    import copy
                     a = ast.copy_location(ast.Assign(targets=[copy.deepcopy(st.targets[0])], value=v.body), st)
                     b = ast.copy_location(ast.Assign(targets=[copy.deepcopy(st.targets[0])], value=v.orelse), st)
                     new = ast.copy_location(ast.If(test=v.test, body=[a], orelse=[b]), st)
                     new._from_ifexp = True
                     blk[i] = new
-                    continue          # nested conditional expressions in the arms
+                    do(new.body)          # nested conditional expressions in the arms
+                    do(new.orelse)
             i += 1
+    for node, fld, blk in list(_blocks(tree)):
+        do(blk)
     return tree
 
 
@@ -431,7 +435,7 @@ def fold_constant_tests(tree):
 
 def unroll_constant_loops(tree):
     """for a, b in <tuple of constant tuples>: BODY   ->   BODY[a, b := c1] ; BODY[a, b := c2] ; ...
-    when the iterable is a tuple literal (or a module-level name bound once to one) of at most 16 constants / tuples of constants, the
+    when the iterable is a tuple / list literal (or a module-level name bound once to a tuple) of at most 16 constants / tuples of constants, the
     body neither exits the loop early nor rebinds the loop variables, and the loop variables are not used after the loop;
     then  setattr(x, 'name', v)  with a literal identifier is the store  x.name = v."""
     import copy
@@ -467,12 +471,13 @@ def unroll_constant_loops(tree):
                         it = consts[it.id]
                     tv = [st.target.id] if isinstance(st.target, ast.Name) else \
                         ([e.id for e in st.target.elts] if isinstance(st.target, ast.Tuple) and all(isinstance(e, ast.Name) for e in st.target.elts) else None)
-                    if isinstance(it, ast.Tuple) and 0 < len(it.elts) <= 16 and all(const_elt(x) for x in it.elts) and tv is not None and \
+                    if isinstance(it, (ast.Tuple, ast.List)) and 0 < len(it.elts) <= 16 and all(const_elt(x) for x in it.elts) and tv is not None and \
                             not any(isinstance(x, (ast.Break, ast.Continue, ast.FunctionDef, ast.Lambda)) for b in st.body for x in ast.walk(b)) and \
                             not any(isinstance(x, ast.Name) and x.id in tv and isinstance(x.ctx, (ast.Store, ast.Del)) for b in st.body for x in ast.walk(b)) and \
                             sum(1 for x in ast.walk(fn) if isinstance(x, ast.Name) and x.id in tv) == \
                             sum(1 for x in ast.walk(st) if isinstance(x, ast.Name) and x.id in tv) and \
-                            all((isinstance(x, ast.Constant) and len(tv) == 1) or (isinstance(x, ast.Tuple) and len(x.elts) == len(tv)) for x in it.elts):
+                            all((isinstance(x, ast.Constant) and len(tv) == 1) or
+                                (isinstance(x, ast.Tuple) and len(x.elts) == len(tv) and len(tv) > 1) for x in it.elts):
                         new = []
                         for x in it.elts:
                             vals = [x.value] if isinstance(x, ast.Constant) else [y.value for y in x.elts]
